@@ -445,6 +445,58 @@ Proof.
   rewrite (negotiation_invisible false limit ts chunks2) by (auto; discriminate). reflexivity.
 Qed.
 
+(* ---------- several sessions on one transport object ---------- *)
+Lemma run_sessions_single persist counting limit st chunks :
+  run_sessions persist true counting limit st [chunks] = [run persist counting limit chunks].
+Proof.
+  cbn [run_sessions]. unfold run. change (reopen true st) with t_init.
+  destruct (session persist counting limit (S (length chunks)) t_init chunks). reflexivity.
+Qed.
+
+(* every session of a history is negotiated like a first session: whatever state [st] the earlier
+   sessions left behind, whatever their streams and segmentations were *)
+Theorem sessions_invisible counting limit tss ss st :
+  (0 < limit)%nat -> Forall2 (session_ok counting limit) tss ss ->
+  run_sessions true true counting limit st ss = map (fun ts => (spec_data ts, spec_replies ts)) tss.
+Proof.
+  intros Hl H. revert st.
+  induction H as [|ts chunks tss ss (Hok & Hn & Hne & Hs) _ IH]; intro st.
+  - reflexivity.
+  - cbn [run_sessions map].
+    pose proof (negotiation_invisible counting limit ts chunks Hok Hl Hn Hne Hs) as R.
+    unfold run in R. change (reopen true st) with t_init.
+    destruct (session true counting limit (S (length chunks)) t_init chunks) as [outs st'].
+    rewrite R. f_equal. apply IH.
+Qed.
+
+(* an open() that keeps the negotiation state of the previous session does NOT have the property:
+   after a session that answered [limit] commands the next session's commands are delivered as
+   data and never answered (sync); a session that stopped inside a command swallows the first
+   bytes of the next one (both transports) *)
+Theorem sessions_refuted_when_negotiation_state_survives :
+  (exists tss ss, Forall2 (session_ok true 10) tss ss /\
+     run_sessions true false true 10 t_init ss <> map (fun ts => (spec_data ts, spec_replies ts)) tss) /\
+  (exists ts1 tail ts2 c2, session_ok false 10 ts2 c2 /\ toks_ok ts1 = true /\
+     (run_sessions true true false 10 t_init [[stream ts1 ++ tail]; c2]
+       = [(spec_data ts1, spec_replies ts1); (spec_data ts2, spec_replies ts2)]) /\
+     (run_sessions true false false 10 t_init [[stream ts1 ++ tail]; c2]
+       <> [(spec_data ts1, spec_replies ts1); (spec_data ts2, spec_replies ts2)])).
+Proof.
+  split.
+  - exists [[Cmd DO 1; Cmd DO 3; Cmd WILL 1; Cmd WILL 3; Cmd DO 24; Cmd DO 31; Cmd DO 32; Cmd DO 33;
+             Cmd DO 34; Cmd DO 39; Data [58]]; [Cmd DO 1; Data [58]]],
+           [[stream [Cmd DO 1; Cmd DO 3; Cmd WILL 1; Cmd WILL 3; Cmd DO 24; Cmd DO 31; Cmd DO 32;
+                     Cmd DO 33; Cmd DO 34; Cmd DO 39; Data [58]]]; [[255; 253]; [1; 58]]].
+    split.
+    + repeat constructor; try discriminate; cbn; lia.
+    + vm_compute. discriminate.
+  - exists [Data [97]], [255; 253], [Data [98]; Cmd WILL 1; Data [58]], [[98; 255]; [251; 1; 58]].
+    split; [|split; [reflexivity|split]].
+    + repeat constructor; try discriminate.
+    + vm_compute. reflexivity.
+    + vm_compute. discriminate.
+Qed.
+
 (* The handler of the pinned commit (control buffer local to one call) does NOT have the
    property: a command cut after its first byte leaks into the data and is never answered. *)
 Theorem seg_independent_refuted_for_local_control_buf :
